@@ -33,6 +33,15 @@ Theorem C20_alignment_irrelevant : forall cls pds f,
 Proof. exact read_write_with. Qed.
 Print Assumptions C20_alignment_irrelevant.
 
+(* file level: after any history of WriteFile calls on one path (whatever the path held before),
+   ReadFile returns the description written last.  Rests on the modelling assumption stated at
+   write_file: WriteFile truncates, the path holds exactly the bytes of the last write. *)
+Theorem C20_file_history : forall cls old fs f,
+  valid_names cls f = true -> plain_docs cls f = true -> byte_values f = true ->
+  read_file (write_files cls old (fs ++ [f])) = Ok f.
+Proof. exact file_history. Qed.
+Print Assumptions C20_file_history.
+
 (* the padding that write_m uses puts the '=' of consecutive specs in one column unless a
    documentation line separates them (never truncating a name); one padding per property *)
 Theorem C20_pads_aligned : forall ps, length (pads ps) = length ps /\ aligned ps (pads ps).
